@@ -193,7 +193,9 @@ def square_root_mod_prime(a, p):
 
     jac = jacobi(a, p)
     if jac == -1:
-        raise SquareRootError("%d has no square root modulo %d" % (a, p))
+        raise SquareRootError(
+            "{0:#x} has no square root modulo {1:#x}".format(a, p)
+        )
 
     if p % 4 == 3:
         return pow(a, (p + 1) // 4, p)
